@@ -907,6 +907,7 @@ struct TlState {
 	int n = 0, maxc = 1;
 	long step = 0;
 	int slotFd = -1;
+	bool unstable = false;   // a step of this case did not settle: the case is lost anyway, later steps do not wait long again
 } l_Tl;
 
 std::string TlLine(bool timeout)
@@ -974,7 +975,7 @@ bool TlWaitStable()
 	std::string sig0;
 	for (;;) {
 		double t = Utility::GetTime();
-		if (t - t0 > 20) return false;
+		if (t - t0 > (l_Tl.unstable ? 1.0 : 12.0)) { l_Tl.unstable = true; return false; }
 		std::string sig;
 		bool ok = TlStableSample(sig);
 		if (!ok) since = -1;
